@@ -602,7 +602,7 @@ func checkC16(w *World, run *simrt.Run) {
 // ------------------------------------------------------------------ C17
 
 func genC17(r *simrt.Rand, tier string, idx uint64) *Plan {
-	nt := 2 + r.Intn(5)
+	nt := 2 + r.Intn(8) // up to 9 live targets: a heap three levels deep
 	p := genCBase(r, "c17", nt)
 	p.Params["sched"] = int(idx % 3)
 	p.Params["tick_ms"] = []int{10, 50, 100, 400, 2000}[r.Intn(5)]
